@@ -39,22 +39,35 @@ def worlds(tier):
 def replay(arg):
     from ..build import frame_gt, vid
 
-    consts, frs, scene = arg
+    consts, frs, scene = arg[:3]
+    # how the history is realised: objects stored in base_link with fresh frame configurations for every call, or stored in map with a different
+    # ego pose for every dataset frame and ONE configuration object per critical-filter variant shared by all the calls that use it
+    how = arg[3] if len(arg) > 3 else "base_link"
     cfg = consts["cfg"]
-    mgr = pipeline.manager_for(cfg, "base_link")
+    rendering = "map" if how == "map-shared-configs" else "base_link"
+    mgr = pipeline.manager_for(cfg, rendering)
     ds = consts["dataset"]
     gframes = []
+    from ..build import EgoPose
+
+    egos = [EgoPose(50.0 * (i + 1), -30.0 + 17.0 * i, 0.0, 0.9 + 1.7 * i) if rendering == "map" else None for i in range(len(ds))]
     for i, gts in enumerate(ds):
-        _, g = pipeline.render_objects({"ests": [], "gts": gts}, "base_link", None)
-        gframes.append(frame_gt(g, time=1000 * (i + 1), name=str(i)))
+        _, g = pipeline.render_objects({"ests": [], "gts": gts}, rendering, egos[i])
+        gframes.append(frame_gt(g, time=1000 * (i + 1), name=str(i), ego=egos[i]))
     mgr.ground_truth_frames = gframes
     original = [[vid(x) for x in f.objects] for f in gframes]
     mism = []
-    rep = {"calls": [[r["i"], r["ev"], r["cv"]] for r in frs], "world": consts["name"]}
+    rep = {"calls": [[r["i"], r["ev"], r["cv"]] for r in frs], "world": consts["name"], "realisation": how}
+    shared = {}
     for k, rec in enumerate(frs):
         frame = {"ests": consts["ests"][rec["ev"] - 1], "gts": ds[rec["i"] - 1], "crit": consts["crits"][rec["cv"] - 1], "pf": consts["pf"]}
-        crit, pfc = pipeline.frame_configs(mgr, frame)
-        ests, _ = pipeline.render_objects({"ests": frame["ests"], "gts": []}, "base_link", None)
+        if how == "map-shared-configs":
+            if rec["cv"] not in shared:
+                shared[rec["cv"]] = pipeline.frame_configs(mgr, frame)
+            crit, pfc = shared[rec["cv"]]
+        else:
+            crit, pfc = pipeline.frame_configs(mgr, frame)
+        ests, _ = pipeline.render_objects({"ests": frame["ests"], "gts": []}, rendering, egos[rec["i"] - 1])
         ests0 = list(ests)
         fgt = mgr.ground_truth_frames[rec["i"] - 1]
         try:
@@ -116,7 +129,7 @@ def replay_worlds(ctx: Ctx, maxcalls, want=lambda clause: True, tag=""):
             items.append(st)
         # constants as python values (parsed back from the dumped frames is not possible for unused variants: parse the TLA text once via TLC dump of cfg only)
         consts_py = dict(name=name, cfg=cw["cfg"], dataset=_parse_tla(w["Dataset"]), ests=_parse_tla(w["EstVariants"]), crits=_parse_tla(w["CritVariants"]), pf=_parse_tla(w["Pf"]))
-        jobs = [(consts_py, plain(st["frameResults"]), plain(st["scene"])) for st in items]
+        jobs = [(consts_py, plain(st["frameResults"]), plain(st["scene"]), how) for st in items for how in ("base_link", "map-shared-configs")]
         outs = pmap(replay, jobs)
         for job, (n, mism) in zip(jobs, outs):
             ctx.traces += n
